@@ -9,7 +9,9 @@ Case kinds
   penman   one EDS x (properties, lnk, indent): to_triples, from_triples(to_triples); oracle goes through PENMAN text
   triples  arbitrary triples -> from_triples (error branches)
 """
+import dis
 import gc
+import inspect
 import io
 import itertools
 import json
@@ -18,6 +20,7 @@ import os
 import re
 import shutil
 import tempfile
+import types
 
 from .common import paths, tables as T
 from .common.runner import Check, canon
@@ -25,7 +28,9 @@ from .common.runner import Check, canon
 paths.ensure_repo_on_path()
 import penman  # noqa: E402
 
-from delphin import sembase, variable  # noqa: E402
+from delphin import lnk as lnkmod  # noqa: E402
+from delphin import sembase, util, variable  # noqa: E402
+from delphin.eds import _eds as edsmod  # noqa: E402
 from delphin.codecs import eds as edsnative  # noqa: E402
 from delphin.codecs import edsjson, edspenman  # noqa: E402
 from delphin.eds import EDS, EDSSyntaxError, Node  # noqa: E402
@@ -746,6 +751,102 @@ def mutate_text(rng, text):
     return "".join(pieces)
 
 
+def skel(fn, doc=None):
+    """normalised load skeleton of a function, read from its code object: in instruction order the string / integer /
+    None / Boolean constants (docstring and message texts — strings with two or more blanks — dropped), the global
+    names, the attribute / method names it loads and the comparison operators; nested code objects (generator
+    expressions, lambdas) inline.  No source text, no layout, no local variable names."""
+    code = fn if isinstance(fn, types.CodeType) else fn.__code__
+    if doc is None and not isinstance(fn, types.CodeType):
+        doc = fn.__doc__
+    out = []
+
+    def const(c):
+        if isinstance(c, types.CodeType):
+            out.extend(skel(c, doc))
+        elif isinstance(c, bool) or c is None:
+            out.append("c:%s" % c)
+        elif isinstance(c, int):
+            out.append("i:%d" % c)
+        elif isinstance(c, str):
+            if c == doc or c.count(" ") >= 2:
+                return
+            out.append("s:" + c)
+        elif isinstance(c, (tuple, frozenset)):
+            for x in (sorted(c, key=repr) if isinstance(c, frozenset) else c):
+                const(x)
+    for ins in dis.get_instructions(code):
+        if ins.opname in ("LOAD_CONST", "KW_NAMES", "RETURN_CONST"):
+            if ins.opname == "RETURN_CONST" and ins.argval is None:
+                continue
+            const(ins.argval)
+        elif ins.opname in ("LOAD_GLOBAL", "LOAD_NAME"):
+            out.append("g:" + str(ins.argval))
+        elif ins.opname in ("LOAD_ATTR", "LOAD_METHOD", "STORE_ATTR"):
+            out.append("a:" + str(ins.argval))
+        elif ins.opname in ("COMPARE_OP", "CONTAINS_OP", "IS_OP"):
+            out.append("o:%s:%s" % (ins.opname, ins.argrepr or ins.arg))
+    return out
+
+
+def pinned_functions():
+    """(Lean name suffix, function) for every anchored function the model hand-codes an equivalent of"""
+    LI, LL = util.LookaheadIterator, util.LookaheadLexer
+    return [
+        ("EdsDecode", edsnative._decode), ("EdsDecodeEds", edsnative._decode_eds),
+        ("EdsDecodeNode", edsnative._decode_node), ("EdsDecodeProperties", edsnative._decode_properties),
+        ("EdsDecodeEdges", edsnative._decode_edges), ("EdsEncodeEds", edsnative._encode_eds),
+        ("EdsEncodeNode", edsnative._encode_node), ("EdsEscape", edsnative._escape),
+        ("EdsUnescape", edsnative._unescape), ("EdsDumps", edsnative.dumps), ("EdsEncode", edsnative.encode),
+        ("EdsDecodeApi", edsnative.decode), ("EdsLoads", edsnative.loads),
+        ("JsonToDict", edsjson.to_dict), ("JsonFromDict", edsjson.from_dict), ("JsonEncode", edsjson.encode),
+        ("JsonDumps", edsjson.dumps), ("JsonDecode", edsjson.decode), ("JsonLoads", edsjson.loads),
+        ("PenToTriples", edspenman.to_triples), ("PenFromTriples", edspenman.from_triples),
+        ("PenEscape", edspenman._escape), ("PenUnescape", edspenman._unescape), ("PenEncode", edspenman.encode),
+        ("PenDumps", edspenman.dumps), ("PenDecode", edspenman.decode), ("PenLoads", edspenman.loads),
+        ("UtilBfs", util._bfs), ("UtilPeek", LI.peek), ("UtilNext", LI.next), ("UtilBufferFill", LI._buffer_fill),
+        ("UtilExpect", LL.expect), ("UtilAccept", LL.accept), ("UtilPrelex", util.Lexer.prelex),
+        ("RolePriority", sembase.role_priority), ("PropertyPriority", sembase.property_priority),
+        ("LnkInit", lnkmod.Lnk.__init__), ("LnkStr", lnkmod.Lnk.__str__), ("LnkBool", lnkmod.Lnk.__bool__),
+        ("LnkCfrom", lnkmod.LnkMixin.cfrom.fget), ("LnkCto", lnkmod.LnkMixin.cto.fget),
+        ("NodeInit", edsmod.Node.__init__), ("EdsInit", edsmod.EDS.__init__),
+    ]
+
+
+def pinned_signatures():
+    """default arguments of every public function of the three codecs and of the constructors the harness uses"""
+    out = []
+    for mname, mod in (("eds", edsnative), ("edsjson", edsjson), ("edspenman", edspenman)):
+        for fname in ("load", "loads", "dump", "dumps", "decode", "encode", "to_dict", "from_dict", "to_triples",
+                      "from_triples"):
+            fn = getattr(mod, fname, None)
+            if fn is not None:
+                out.append("%s.%s%s" % (mname, fname, inspect.signature(fn)))
+    for name, fn in (("Node", edsmod.Node.__init__), ("EDS", edsmod.EDS.__init__),
+                     ("LookaheadIterator", util.LookaheadIterator.__init__),
+                     ("LookaheadLexer", util.LookaheadLexer.__init__),
+                     ("LookaheadIterator.peek", util.LookaheadIterator.peek),
+                     ("LookaheadLexer.accept", util.LookaheadLexer.accept), ("_bfs", util._bfs)):
+        sig = inspect.signature(fn)
+        out.append("%s(%s)" % (name, ", ".join(
+            p.name if p.default is inspect.Parameter.empty else "%s=%r" % (p.name, p.default)
+            for p in sig.parameters.values())))
+    return out
+
+
+def pin_lines():
+    lit = T.lean_strlit
+    lines = ["def c03LexerTokens : List (String × String) := [%s]"
+             % ", ".join("(%s, %s)" % (lit(rx), lit(nm)) for rx, nm in edsnative._EDSLexer.tokens),
+             "def c03LexerFlags : Nat := %d" % int(edsnative._EDSLexer._re.flags),
+             "def c03JsonFraming : List String := [%s]" % ", ".join(lit(x) for x in (edsjson.HEADER, edsjson.JOINER,
+                                                                                      edsjson.FOOTER)),
+             "def c03Signatures : List String := [%s]" % ", ".join(lit(x) for x in pinned_signatures())]
+    for name, fn in pinned_functions():
+        lines.append("def c03Skel%s : List String := [%s]" % (name, ", ".join(lit(x) for x in skel(fn))))
+    return lines
+
+
 class C03(Check):
     pid = "C03"
     quick_cases = 4000
@@ -763,7 +864,7 @@ class C03(Check):
     def tables(self):
         return ["def edsCommonProperties : List String := [%s]"
                 % ", ".join(T.lean_strlit(s) for s in sembase._COMMON_PROPERTIES),
-                "def edsUnspecific : String := %s" % T.lean_strlit(variable.UNSPECIFIC)]
+                "def edsUnspecific : String := %s" % T.lean_strlit(variable.UNSPECIFIC)] + pin_lines()
 
     tmpdir = None
 
